@@ -153,20 +153,32 @@ theorem indexAfter_lt (r : RPos) (i : Nat) (hi : i < r.depth) : r.indexAfter i =
 
 /-! ### the innermost level of `from` -/
 
-/-- what the innermost level of `from` must provide: with the frontier's match `q` there, whatever filling
-    `fill_before(after, True)` answered at `q` makes `botL ++ fill ++ after` valid content -/
-def BotLOK (S : Schema) (rf : RPos) (botL : List Node) : Prop :=
-  ∀ q, S.contentMatchAt (S.tyOf rf.parent) rf.parent.kids (rf.indexAfter rf.depth) = some q →
-    ∀ fill after H2, fillOpt S (S.dfa (S.tyOf rf.parent)) q (S.types after) true = .ok (some fill) →
-      S.types H2 = S.types after → MarksOK S (S.tyOf rf.parent) H2 →
-      S.validContent (S.tyOf rf.parent) (botL ++ fill ++ H2) = true
+/-- the match of the frontier entry of level `i`: `qtop` at the innermost level (where the loop of `fit` may have placed
+    content), elsewhere the state behind the child the path goes into -/
+def frontSt (S : Schema) (rf : RPos) (qtop : Nat) (i : Nat) : Option Nat :=
+  if i = rf.depth then some qtop else S.contentMatchAt (S.tyOf (rf.node i)) (rf.node i).kids (rf.indexAfter i)
+
+theorem frontSt_lt (S : Schema) (rf : RPos) (qtop i : Nat) (hi : i < rf.depth) :
+    frontSt S rf qtop i = S.contentMatchAt (S.tyOf (rf.node i)) (rf.node i).kids (rf.indexAfter i) := by
+  unfold frontSt; rw [if_neg (by omega)]
+
+theorem frontSt_top (S : Schema) (rf : RPos) (qtop : Nat) : frontSt S rf qtop rf.depth = some qtop := by
+  unfold frontSt; rw [if_pos rfl]
+
+/-- what the innermost level of `from` must provide: with the frontier's match `qtop` there, whatever filling
+    `fill_before(after, True)` answered at `qtop` makes `botL ++ fill ++ after` valid content -/
+def BotLOK (S : Schema) (rf : RPos) (qtop : Nat) (botL : List Node) : Prop :=
+  ∀ fill after H2, fillOpt S (S.dfa (S.tyOf rf.parent)) qtop (S.types after) true = .ok (some fill) →
+    S.types H2 = S.types after → MarksOK S (S.tyOf rf.parent) H2 →
+    S.validContent (S.tyOf rf.parent) (botL ++ fill ++ H2) = true
 
 /-- the plain case: `botL` are the children up to `from` (the text child `from` is in cut short) -/
 theorem botLOK_of_sig (S : Schema) (hdet : DetS S) (hleaf : LeafOk S) {ty0 : TypeId} {a0 : Attrs} {m0 : Marks}
     {K : List Node} {f : Nat} {rf : RPos} (hf : (Node.elem ty0 a0 m0 K).resolve f = some rf)
-    (hv : S.checkNode (.elem ty0 a0 m0 K) = true) (botL : List Node)
-    (hbL : sigOf S botL = sigOf S (rf.parent.kids.take (rf.indexAfter rf.depth))) : BotLOK S rf botL := by
-  intro q hq fill after H2 hfill hH2 hm2
+    (hv : S.checkNode (.elem ty0 a0 m0 K) = true) (botL : List Node) (q : Nat)
+    (hq : S.contentMatchAt (S.tyOf rf.parent) rf.parent.kids (rf.indexAfter rf.depth) = some q)
+    (hbL : sigOf S botL = sigOf S (rf.parent.kids.take (rf.indexAfter rf.depth))) : BotLOK S rf q botL := by
+  intro fill after H2 hfill hH2 hm2
   obtain ⟨hvD, _, _⟩ := level_check S hf hv rf.depth (Nat.le_refl _)
   exact level_valid S hdet hleaf (S.tyOf rf.parent) _ _ fill _ _ q hq (sigOf_types S hbL)
     (sigOf_marksOK S _ hbL (marksOK_sub S _ (marksOK_of_valid S _ _ hvD) (fun c hc => List.mem_of_mem_take hc)))
@@ -181,12 +193,11 @@ theorem mem_drop_of {α : Type} {l : List α} {i : Nat} {c : α} (h : c ∈ l.dr
     behind the children up to the path, the filler leads from there to a valid end -/
 theorem leftOK_of_run (S : Schema) (hdet : DetS S) (hleaf : LeafOk S) {ty0 : TypeId} {a0 : Attrs} {m0 : Marks}
     {K : List Node} {f : Nat} {rf : RPos} (hf : (Node.elem ty0 a0 m0 K).resolve f = some rf)
-    (hv : S.checkNode (.elem ty0 a0 m0 K) = true) (botL : List Node)
-    (hbL : BotLOK S rf botL)
+    (hv : S.checkNode (.elem ty0 a0 m0 K) = true) (qtop : Nat) (botL : List Node)
+    (hbL : BotLOK S rf qtop botL)
     (hkL : S.checkKids botL = true) :
     ∀ (n j : Nat) (fills : List (List Node)), j + n = rf.depth → fills.length = n →
-      (∀ k, k < n → ∃ q fill, S.contentMatchAt (S.tyOf (rf.node (j + 1 + k))) (rf.node (j + 1 + k)).kids
-          (rf.indexAfter (j + 1 + k)) = some q ∧ fills[k]? = some fill ∧
+      (∀ k, k < n → ∃ q fill, frontSt S rf qtop (j + 1 + k) = some q ∧ fills[k]? = some fill ∧
           fillOpt S (S.dfa (S.tyOf (rf.node (j + 1 + k)))) q [] true = .ok (some fill)) →
       LeftOK S (framesFrom rf j n) fills botL
   | 0, j, fills, _, hl, _ => by
@@ -204,7 +215,7 @@ theorem leftOK_of_run (S : Schema) (hdet : DetS S) (hleaf : LeafOk S) {ty0 : Typ
       obtain ⟨hvj, hkj, _⟩ := level_check S hf hv j (by omega)
       obtain ⟨hvj1, hkj1, hcm1⟩ := level_check S hf hv (j + 1) (by omega)
       obtain ⟨hty, hmk⟩ := frameAt_ty S hf j (by omega)
-      have ih := leftOK_of_run S hdet hleaf hf hv botL hbL hkL n (j + 1) fills' (by omega) hl
+      have ih := leftOK_of_run S hdet hleaf hf hv qtop botL hbL hkL n (j + 1) fills' (by omega) hl
         (fun k hk => by
           obtain ⟨q', fill', h1, h2, h3⟩ := hF (k + 1) (by omega)
           rw [show j + 1 + (k + 1) = j + 1 + 1 + k by omega] at h1 h3
@@ -217,7 +228,10 @@ theorem leftOK_of_run (S : Schema) (hdet : DetS S) (hleaf : LeafOk S) {ty0 : Typ
         have e : j + 1 = rf.depth := by omega
         simp only [framesFrom, headL]
         rw [e] at hq hfill ⊢
-        have := hbL q hq fill [] [] hfill rfl (fun c hc => by simp at hc)
+        rw [frontSt_top] at hq
+        simp only [Option.some.injEq] at hq
+        subst hq
+        have := hbL fill [] [] hfill rfl (fun c hc => by simp at hc)
         simp only [List.append_nil] at this
         exact this
       | succ n' =>
@@ -226,6 +240,7 @@ theorem leftOK_of_run (S : Schema) (hdet : DetS S) (hleaf : LeafOk S) {ty0 : Typ
           simp only [framesFrom, headL]
           rw [indexAfter_lt rf (j + 1) (by omega)]
           exact (level_sig S hf (j + 1) (by omega)).1
+        rw [frontSt_lt S rf qtop (j + 1) (by omega)] at hq
         have := level_valid S hdet hleaf (S.tyOf (rf.node (j + 1))) _ _ fill [] [] q hq (sigOf_types S hH)
           (sigOf_marksOK S _ hH (marksOK_sub S _ (marksOK_of_valid S _ _ hvj1) (fun c hc => mem_take_of hc))) hfill rfl
           (fun c hc => by simp at hc)
@@ -452,24 +467,25 @@ theorem compat_of_fits (S : Schema) (hdet : DetS S) (hjc : joinCompatB S = true)
 
 /-- `find_close_level(tgt)` answered level `c` with the filling `fit`; `mv` is the position `close` continues from
     (`tgt`, or the position behind `tgt.node(c + 1)` when that node is dropped: `di`) -/
-structure CloseFacts (S : Schema) (rf tgt mv : RPos) (c : Nat) (fit : List Node) (di : Bool) : Prop where
+structure CloseFacts (S : Schema) (rf : RPos) (qtop : Nat) (tgt mv : RPos) (c : Nat) (fit : List Node) (di : Bool) :
+    Prop where
   hcD : c ≤ rf.depth
   hcT : c ≤ tgt.depth
   hcM : c ≤ mv.depth
   nodes : ∀ i, i ≤ c → mv.node i = tgt.node i
   idx : ∀ i, i < c → mv.index i = tgt.index i
   idxc : mv.index c = if di then tgt.indexAfter c else tgt.index c
-  inner : ∀ i, i < c → ∃ q, S.contentMatchAt (S.tyOf (rf.node i)) (rf.node i).kids (rf.indexAfter i) = some q ∧
+  inner : ∀ i, i < c → ∃ q, frontSt S rf qtop i = some q ∧
     contentAfterFits S tgt i (S.tyOf (rf.node i)) (some q) true = .ok (some [])
-  level : ∃ q, S.contentMatchAt (S.tyOf (rf.node c)) (rf.node c).kids (rf.indexAfter c) = some q ∧
+  level : ∃ q, frontSt S rf qtop c = some q ∧
     contentAfterFits S tgt c (S.tyOf (rf.node c)) (some q) di = .ok (some fit)
 
 /-- **the joined levels are valid**: `from`'s ancestor accepts, behind the child the path goes into, the children
     behind the end position (`content_after_fits(…, open=True)` answered the empty filling) -/
 theorem joinOK_of_run (S : Schema) (hdet : DetS S) (hleaf : LeafOk S) {ty0 : TypeId} {a0 : Attrs} {m0 : Marks}
-    {K : List Node} {f p : Nat} {rf tgt mv : RPos} {c : Nat} {fit : List Node} {di : Bool}
+    {K : List Node} {f p : Nat} {rf tgt mv : RPos} {qtop c : Nat} {fit : List Node} {di : Bool}
     (hf : (Node.elem ty0 a0 m0 K).resolve f = some rf) (hmv : (Node.elem ty0 a0 m0 K).resolve p = some mv)
-    (hv : S.checkNode (.elem ty0 a0 m0 K) = true) (C : CloseFacts S rf tgt mv c fit di) :
+    (hv : S.checkNode (.elem ty0 a0 m0 K) = true) (C : CloseFacts S rf qtop tgt mv c fit di) :
     ∀ (n j : Nat), j + n = c → JoinOK S (S.tyOf (rf.node j)) (framesFrom rf j n) (framesFrom mv j n)
   | 0, _, _ => trivial
   | n + 1, j, hj => by
@@ -490,7 +506,7 @@ theorem joinOK_of_run (S : Schema) (hdet : DetS S) (hleaf : LeafOk S) {ty0 : Typ
     have hpost : (frameAt mv j).post = (tgt.node j).kids.drop (tgt.indexAfter j) := by
       simp only [frameAt]
       rw [C.nodes j (by omega), C.idx j hjc, indexAfter_lt tgt j (by have := C.hcT; omega)]
-    rw [indexAfter_lt rf j (by have := C.hcD; omega)] at hq
+    rw [frontSt_lt S rf qtop j (by have := C.hcD; omega), indexAfter_lt rf j (by have := C.hcD; omega)] at hq
     have := level_valid S hdet hleaf (S.tyOf (rf.node j)) _ ((frameAt rf j).pre ++ [(frameAt rf j).node []]) [] _
       (frameAt mv j).post q hq (sigOf_types S hs1)
       (sigOf_marksOK S _ hs1 (marksOK_sub S _ (marksOK_of_valid S _ _ hvj) (fun x hx => mem_take_of hx)))
@@ -500,10 +516,10 @@ theorem joinOK_of_run (S : Schema) (hdet : DetS S) (hleaf : LeafOk S) {ty0 : Typ
 /-- **the close level is valid**: the children of `from`'s ancestor up to the path, the filling `find_close_level`
     computed, the children of the end position's ancestor from the path on -/
 theorem closeLevel_valid (S : Schema) (hdet : DetS S) (hleaf : LeafOk S) {ty0 : TypeId} {a0 : Attrs} {m0 : Marks}
-    {K : List Node} {f p : Nat} {rf tgt mv : RPos} {c : Nat} {fit : List Node} {di : Bool}
+    {K : List Node} {f p : Nat} {rf tgt mv : RPos} {qtop c : Nat} {fit : List Node} {di : Bool}
     (hf : (Node.elem ty0 a0 m0 K).resolve f = some rf) (hmv : (Node.elem ty0 a0 m0 K).resolve p = some mv)
-    (hv : S.checkNode (.elem ty0 a0 m0 K) = true) (C : CloseFacts S rf tgt mv c fit di) (botL botR : List Node)
-    (hbL : BotLOK S rf botL)
+    (hv : S.checkNode (.elem ty0 a0 m0 K) = true) (C : CloseFacts S rf qtop tgt mv c fit di) (botL botR : List Node)
+    (hbL : BotLOK S rf qtop botL)
     (hbR : sigOf S botR = sigOf S (mv.parent.kids.drop (mv.index mv.depth))) :
     S.validContent (S.tyOf (rf.node c))
       (headL (framesFrom rf c (rf.depth - c)) botL ++ fit
@@ -521,23 +537,27 @@ theorem closeLevel_valid (S : Schema) (hdet : DetS S) (hleaf : LeafOk S) {ty0 : 
     have e : c = rf.depth := by have := C.hcD; omega
     simp only [framesFrom, headL]
     rw [e] at hq hfill hR ⊢
-    exact hbL q hq fit _ _ hfill hR.1 hR.2
+    rw [frontSt_top] at hq
+    simp only [Option.some.injEq] at hq
+    subst hq
+    exact hbL fit _ _ hfill hR.1 hR.2
   | succ n' =>
     have hL : sigOf S (headL (framesFrom rf c (n' + 1)) botL)
         = sigOf S ((rf.node c).kids.take (rf.indexAfter c)) := by
       simp only [framesFrom, headL]
       rw [indexAfter_lt rf c (by omega)]
       exact (level_sig S hf c (by omega)).1
+    rw [frontSt_lt S rf qtop c (by omega)] at hq
     exact level_valid S hdet hleaf (S.tyOf (rf.node c)) _ _ fit _ _ q hq (sigOf_types S hL)
       (sigOf_marksOK S _ hL (marksOK_sub S _ (marksOK_of_valid S _ _ hvc) (fun x hx => mem_take_of hx)))
       hfill hR.1 hR.2
 
 /-- **the joined ancestors are `compatible_content`** (guard `joinCompatB` where `content_after_fits` did not test) -/
 theorem compatFrames_of_run (S : Schema) (hdet : DetS S) (hjc : joinCompatB S = true) {ty0 : TypeId} {a0 : Attrs}
-    {m0 : Marks} {K : List Node} {f p t : Nat} {rf tgt mv : RPos} {c : Nat} {fit : List Node} {di : Bool}
+    {m0 : Marks} {K : List Node} {f p t : Nat} {rf tgt mv : RPos} {qtop c : Nat} {fit : List Node} {di : Bool}
     (hf : (Node.elem ty0 a0 m0 K).resolve f = some rf) (hmv : (Node.elem ty0 a0 m0 K).resolve p = some mv)
     (htg : (Node.elem ty0 a0 m0 K).resolve t = some tgt)
-    (hv : S.checkNode (.elem ty0 a0 m0 K) = true) (C : CloseFacts S rf tgt mv c fit di) :
+    (hv : S.checkNode (.elem ty0 a0 m0 K) = true) (C : CloseFacts S rf qtop tgt mv c fit di) :
     ∀ (n j : Nat), j + n = c → compatFrames S (framesFrom rf j n) (framesFrom mv j n)
   | 0, _, _ => trivial
   | n + 1, j, hj => by
